@@ -30,5 +30,18 @@ PROPS["C09"] = dict(
     assumptions=["system libogg 1.3.5 is correct"],
 )
 
+PROPS["C10"] = dict(
+    engine="rc", engine_name="rc-tape", sources=["props/c10.cpp"], level="exploration", design_ref="3.11",
+    quick=dict(cases=150), thorough=dict(cases=2500),
+    technique="property-based testing (rapidcheck tapes): differential between three access paths (seekable vorbisfile, streaming vorbisfile, packet API via ogg_sync) under generated read-size and request-length schedules, bit-exact",
+    level_text="Generated search over streams (1..4 links), callback short-read schedules (exact, 1 byte, random), initial buffers, requested lengths and ogg_sync chunkings; "
+               "oracle: concatenated PCM of every path is bit-identical to the standalone packet-level decode and no call reports a hole or error.",
+    level_note="Trusted: system libogg, harness pager. Links come from the bundled encoder. A seekable open with an initial buffer is not generated (documented for streaming use).",
+    rule="case = chain + (per path) read-size schedule, request-length schedule, initial-buffer length, sync chunking; non-trivial = at least one path uses a non-constant schedule; "
+         "distinct by hash of chain description and tape position",
+    require_labels=["1-byte reads", "initial buffer", "chained (streaming crosses link boundaries)"],
+    assumptions=["system libogg 1.3.5 is correct"],
+)
+
 NOT_APPLICABLE = {}
 HOOK_COMMITS = []
